@@ -90,6 +90,8 @@ def rule_rewrite_order(ctx: Ctx) -> None:
 
 
 def run(ctx: Ctx) -> None:
+    from ..rules import order as _order
+    _order.rule_sequence_source(ctx, [("graphiq/circuit/circuit_dag.py", "CircuitDAG.to_json"), ("graphiq/circuit/circuit_dag.py", "CircuitDAG._slim_seq"), ("graphiq/circuit/circuit_base.py", "CircuitBase.to_openqasm")])
     from ..rules import memo as _memo
     _memo.rule_memo_sound(ctx, ['graphiq/circuit/circuit_dag.py', 'graphiq/backends/compiler_base.py', 'graphiq/metrics.py'])
     effects.rule_inplace_on_input(ctx)
@@ -103,6 +105,8 @@ def run(ctx: Ctx) -> None:
 
 
 KNOCKOUTS = [
+    Knockout("export-node-order", "graphiq/circuit/circuit_dag.py", sub_once("        for op in self.sequence():\n            if isinstance(op, ops.InputOutputOperationBase):", "        for op in [self.dag.nodes[k]['op'] for k in self.dag.nodes]:\n            if isinstance(op, ops.InputOutputOperationBase):"), "order.topological", "node-creation order"),
+
     Knockout("D1-metric-no-copy", "graphiq/metrics.py", sub_nth("        c = circuit.copy()\n        c.unwrap_nodes()", "        c = circuit\n        circuit.unwrap_nodes()", 0),
              "effect.inplace-on-input", "unwrap_nodes"),
     Knockout("D1-photon-loss-no-copy", "graphiq/utils/photon_loss.py", sub_once("    circuit = circuit.copy()\n", ""), "effect.inplace-on-input", "photon_survival_rate"),
